@@ -68,6 +68,23 @@ func (p *Prog) closureInit(cl *ssa.Function) func(a *Analysis, st *State) {
 			}
 		}
 	}
+	// a closure started or called right where it is created (go func(x T){…}(v)):
+	// its parameters are the arguments evaluated there
+	for _, r := range *mc.Referrers() {
+		ci, isCall := r.(ssa.CallInstruction)
+		if !isCall || ci.Common().Value != ssa.Value(mc) {
+			continue
+		}
+		sts2 := oa.At[r]
+		if len(sts2) != 1 {
+			continue
+		}
+		for i, arg := range ci.Common().Args {
+			if i < len(cl.Params) {
+				bound[cl.Params[i]] = oa.ExprAt(sts2[0], arg)
+			}
+		}
+	}
 	return func(a *Analysis, st *State) {
 		for fv, e := range bound {
 			st.env[fv] = e
